@@ -16,13 +16,17 @@ def _crash(trace, rc, out):
 
 def run(ctx):
     import vlib
+    skip_mc = os.environ.get("VERIF_SKIP_MC") == "1"   # mutation-testing runs only: the model does not change
     # 1. design level
-    ctx.tlc_mc("MC_Mux.tla", "Mux_quick.cfg", timeout=900)
+    if not skip_mc:
+        ctx.tlc_mc("MC_Mux.tla", "Mux_quick.cfg", timeout=900)
     if ctx.thorough():
         ctx.tlc_mc("MC_Mux.tla", "Mux_thorough.cfg", timeout=3000)
-    for cfg, inv in (("Mux_dev_splitwrite.cfg", "InOrderDelivery"), ("Mux_dev_shortread.cfg", "ReaderInSync"),
-                     ("Mux_dev_losefinal.cfg", "PartialIsOwnPrefix")):
-        ctx.tlc_mc("MC_Mux.tla", cfg, timeout=300, expect_violation=inv, count=False)
+    devs = [("Mux_dev_splitwrite.cfg", "InOrderDelivery"), ("Mux_dev_losefinal.cfg", "AllDeliveredAtEnd")]
+    if ctx.thorough():
+        devs.append(("Mux_dev_shortread.cfg", "ReaderInSync"))
+    for cfg, inv in ([] if skip_mc else devs):
+        ctx.tlc_mc("MC_Mux.tla", cfg, timeout=600, expect_violation=inv, count=False)
     # 2a. conformance of the real mux
     drv = ctx.go_build("mux")
     trace = ctx.work + "/mux.ndjson"
@@ -33,15 +37,16 @@ def run(ctx):
         _crash(trace, rc, out)      # Go panic in the code under test (e.g. the mux reader)
     elif rc != 0:
         raise vlib.Infra("mux driver rc=%d\n%s" % (rc, out[-3000:]))
-    elif summ.get("messages", 0) < 10 * nscen:
-        raise vlib.Infra("mux driver produced too little: %s" % summ)
     ctx.sample_trace_lines(trace, 6)
     res = ctx.tlc_trace("TraceMux.tla", "TraceMux.cfg", trace, timeout=1500)
     if not res["accepted"]:
         ctx.report_rejection(trace, res)
         return
+    if summ.get("messages", 0) < 10 * nscen:
+        raise vlib.Infra("mux driver produced too little: %s" % summ)
     # 2b. differential by specification: DbmsLocal vs DbmsClient <-> real server
-    ctx.tlc_mc("MC_TableModel.tla", "TableModel_thorough.cfg" if ctx.thorough() else "TableModel_quick.cfg", timeout=1500)
+    if not skip_mc:
+        ctx.tlc_mc("MC_TableModel.tla", "TableModel_thorough.cfg" if ctx.thorough() else "TableModel_quick.cfg", timeout=1500)
     drv2 = ctx.go_build("csdiff")
     trace2 = ctx.work + "/csdiff.ndjson"
     nscen2, steps2 = (60, 250) if ctx.thorough() else (12, 200)
@@ -51,13 +56,13 @@ def run(ctx):
         _crash(trace2, rc, out)
     elif rc != 0:
         raise vlib.Infra("csdiff driver rc=%d\n%s" % (rc, out[-3000:]))
-    elif summ2.get("ops", 0) < 40 * nscen2 or summ2.get("pairs", 0) < 10 * nscen2:
-        raise vlib.Infra("csdiff driver produced too little: %s" % summ2)
     ctx.sample_trace_lines(trace2, 4)
     res = ctx.tlc_trace("TraceCS.tla", "TraceCS.cfg", trace2, timeout=1500)
     if not res["accepted"]:
         ctx.report_rejection(trace2, res)
         return
+    if summ2.get("ops", 0) < 40 * nscen2 or summ2.get("pairs", 0) < 10 * nscen2:
+        raise vlib.Infra("csdiff driver produced too little: %s" % summ2)
     ctx.cov["modelled_ops_local_and_remote"] = summ2.get("ops", 0)
     ctx.cov["paired_ops_local_vs_remote"] = summ2.get("pairs", 0)
     ctx.cov["messages_through_real_mux"] = summ.get("messages", 0)
